@@ -487,14 +487,35 @@ class SymBytes(SymSeq):
         e = enc.lower().replace("_", "-")
         if e in ("latin-1", "latin1", "iso-8859-1", "iso8859-1"):
             return SymStr([x if isinstance(x, int) else _simp_cell(z3.ZeroExt(SymStr.W - 8, x)) for x in self.c]).simplify()
-        if e in ("ascii", "utf-8", "utf8"):
-            # decide 7-bit-ness cell by cell
+        if e == "ascii":
             for x in self.c:
                 if not self._decide(self._crange(x, 0, 127)):
-                    if e == "ascii":
-                        raise UnicodeDecodeError("ascii", b"?", 0, 1, "ordinal not in range(128)")
-                    raise Unsupported("utf-8 decode of symbolic non-ascii")
+                    raise UnicodeDecodeError("ascii", b"?", 0, 1, "ordinal not in range(128)")
             return SymStr([x if isinstance(x, int) else _simp_cell(z3.ZeroExt(SymStr.W - 8, x)) for x in self.c]).simplify()
+        if e in ("utf-8", "utf8"):
+            # symbolic cells decided to be ASCII stay symbolic; a symbolic non-ASCII cell is concretised (fork per value)
+            # so that CPython's own decoder can be applied to every non-ASCII run
+            cells = []
+            for x in self.c:
+                if isinstance(x, int) or self._decide(self._crange(x, 0, 127)):
+                    cells.append(x)
+                else:
+                    cells.append(SymInt(z3.BV2Int(x)).__index__())
+            out = []
+            run = bytearray()
+
+            def flush():
+                if run:
+                    out.extend(ord(ch) for ch in bytes(run).decode("utf-8", errors))
+                    del run[:]
+            for x in cells:
+                if isinstance(x, int) and x >= 0x80:
+                    run.append(x)
+                else:
+                    flush()
+                    out.append(x if isinstance(x, int) else _simp_cell(z3.ZeroExt(SymStr.W - 8, x)))
+            flush()
+            return SymStr(out).simplify()
         raise Unsupported("decode %s" % enc)
 
     def upper(self):
